@@ -36,6 +36,8 @@ enum Outcome {
     StopUnhandled,
     StopHandled,
     Error,
+    /// stops the run and then fails
+    StopError,
 }
 
 #[derive(Clone, Debug)]
@@ -163,6 +165,10 @@ fn hook_body(id: usize, ax: &mut Axecutor, m: SM) -> Result<HookResult, Box<dyn 
             Ok(HookResult::Handled)
         }
         // failing hooks fail with all sorts of errors, including ones that print as nothing
+        Outcome::StopError => {
+            ax.stop();
+            Err("stopped, then failed".into())
+        }
         Outcome::Error => match (id + inv) % 4 {
             0 => Err("scripted hook failure".into()),
             1 => Err("".into()),
@@ -191,6 +197,7 @@ fn gen_outcome(rng: &mut Rng, eventful: bool) -> Outcome {
         6 | 7 | 8 => Outcome::Handled,
         9 => Outcome::StopUnhandled,
         10 => Outcome::StopHandled,
+        11 if rng.below(3) == 0 => Outcome::StopError,
         _ => Outcome::Error,
     }
 }
@@ -378,7 +385,7 @@ impl C12 {
             let ins_name = format!("{:?}", ins.mnemonic());
             let registered = |before: bool| -> Vec<usize> { defs_now.iter().enumerate().filter(|(_, d)| d.before == before && format!("{:?}", d.mnemonic) == ins_name).map(|(i, _)| i).collect() };
             let before_stopped = before_ev.iter().any(|e| matches!(e.outcome, Outcome::StopHandled | Outcome::StopUnhandled));
-            let before_failed = before_ev.iter().any(|e| e.outcome == Outcome::Error);
+            let before_failed = before_ev.iter().any(|e| matches!(e.outcome, Outcome::Error | Outcome::StopError));
             // does the instruction itself end the run (last instruction / top-level ret)? Then a hook's stop() in the
             // after phase is indistinguishable from no stop, and either continuation is accepted
             let natural_end = {
@@ -423,7 +430,7 @@ impl C12 {
                 }
             }
             // 4. outcomes: error => the step fails; stop => the run ends without error
-            let any_error = events.iter().any(|e| e.outcome == Outcome::Error);
+            let any_error = events.iter().any(|e| matches!(e.outcome, Outcome::Error | Outcome::StopError));
             let any_stop = events.iter().any(|e| matches!(e.outcome, Outcome::StopHandled | Outcome::StopUnhandled));
             // 5. twin: replay the modifications around the same instruction
             let mut t_pre = twin.clone();
@@ -553,6 +560,13 @@ impl C12 {
                 }
                 if !any_error {
                     break; // the instruction itself failed: end of this program
+                }
+                // a hook that stopped the run and then failed: the step failed, and the run is over all the same
+                if events.iter().any(|e| e.outcome == Outcome::StopError) {
+                    col.distinct_key("stop-then-fail");
+                    if !ax.verif_finished() {
+                        return fail(col, "stop-undone-by-the-hook's-own-failure", "a hook called stop() and then returned an error: the step failed, but the run is not finished".into(), steps);
+                    }
                 }
                 // resynchronise the twin with the machine and go on: remaining scripts play out in a second run
                 if !resync(&mut twin, &ax) {
